@@ -15,6 +15,7 @@ package cmap
 
 import (
 	"sync"
+	"sync/atomic"
 )
 
 // Mutex is an interface that defines a thread-safe map with keys of type T associated to
@@ -43,34 +44,51 @@ type Mutex[T comparable] interface {
 	DeleteRUnlock(key T)
 }
 
+// keyMutex is the mutex of one key, together with the number of goroutines that use it: those that hold it, wait for
+// it, or have looked it up and are about to lock it.
+type keyMutex struct {
+	sync.RWMutex
+	users atomic.Int64
+}
+
 type mutex[T comparable] struct {
 	lock  sync.RWMutex
-	items map[T]*sync.RWMutex
+	items map[T]*keyMutex
 }
 
 func NewMutex[T comparable]() Mutex[T] {
 	return &mutex[T]{
-		items: make(map[T]*sync.RWMutex),
+		items: make(map[T]*keyMutex),
 	}
 }
 
-func (a *mutex[T]) Lock(key T) {
+// get returns the mutex of the key, creating it if needed, and registers the caller as one of its users.
+// The registration happens under the map lock, so that a delete-and-release of the key cannot remove the entry (and let
+// the next Lock create a second mutex for the same key) while the caller is on its way to the mutex.
+func (a *mutex[T]) get(key T) *keyMutex {
 	a.lock.RLock()
 	mutex, ok := a.items[key]
+	if ok {
+		mutex.users.Add(1)
+	}
 	a.lock.RUnlock()
 	if ok {
-		mutex.Lock()
-		return
+		return mutex
 	}
 
 	a.lock.Lock()
 	mutex, ok = a.items[key]
 	if !ok {
-		mutex = &sync.RWMutex{}
+		mutex = &keyMutex{}
 		a.items[key] = mutex
 	}
+	mutex.users.Add(1)
 	a.lock.Unlock()
-	mutex.Lock()
+	return mutex
+}
+
+func (a *mutex[T]) Lock(key T) {
+	a.get(key).Lock()
 }
 
 func (a *mutex[T]) Unlock(key T) {
@@ -78,28 +96,13 @@ func (a *mutex[T]) Unlock(key T) {
 	mutex, ok := a.items[key]
 	if ok {
 		mutex.Unlock()
+		mutex.users.Add(-1)
 	}
 	a.lock.RUnlock()
 }
 
 func (a *mutex[T]) RLock(key T) {
-	a.lock.RLock()
-	mutex, ok := a.items[key]
-	a.lock.RUnlock()
-
-	if ok {
-		mutex.RLock()
-		return
-	}
-
-	a.lock.Lock()
-	mutex, ok = a.items[key]
-	if !ok {
-		mutex = &sync.RWMutex{}
-		a.items[key] = mutex
-	}
-	a.lock.Unlock()
-	mutex.RLock()
+	a.get(key).RLock()
 }
 
 func (a *mutex[T]) RUnlock(key T) {
@@ -107,6 +110,7 @@ func (a *mutex[T]) RUnlock(key T) {
 	mutex, ok := a.items[key]
 	if ok {
 		mutex.RUnlock()
+		mutex.users.Add(-1)
 	}
 	a.lock.RUnlock()
 }
@@ -122,8 +126,12 @@ func (a *mutex[T]) DeleteUnlock(key T) {
 	mutex, ok := a.items[key]
 	if ok {
 		mutex.Unlock()
+		// The entry stays while other goroutines use this mutex: removing it would let the next Lock of the key
+		// create a second mutex while they hold, or are about to be granted, this one
+		if mutex.users.Add(-1) == 0 {
+			delete(a.items, key)
+		}
 	}
-	delete(a.items, key)
 	a.lock.Unlock()
 }
 
@@ -132,8 +140,10 @@ func (a *mutex[T]) DeleteRUnlock(key T) {
 	mutex, ok := a.items[key]
 	if ok {
 		mutex.RUnlock()
+		if mutex.users.Add(-1) == 0 {
+			delete(a.items, key)
+		}
 	}
-	delete(a.items, key)
 	a.lock.Unlock()
 }
 
